@@ -62,6 +62,8 @@ def shape_weights(k):
         return [Fraction(w) for w in k["w"]]
     if t == "int":
         return [Fraction(1)] * max(0, k["n"])
+    if t == "num":
+        return []
     if t == "dirac":
         return [Fraction(0), Fraction(1), Fraction(0)]
     if t == "user":
@@ -240,36 +242,50 @@ class P(Prop):
         (M, "TV.C15.operate_list_is_mean", "track.operate(FILTER, [names], kernel) with arg3 omitted or equal: every listed feature becomes its mean signal, one window for all, nothing returned, nothing else changed; lists of different lengths are refused"),
         (M, "TV.C15.inDomain_normalise", "the domain does not depend on the scale of a weight list (it holds for the list normalised in place)"),
         (M, "TV.C15.filterSeq_twice", "filter_seq called twice on the same track with the same kernel object: mean signals, then mean signals of the mean signals under the same window (temp left by the first call and the in-place normalisation do not matter)"),
+        (M, "TV.C15.number_kernel_refused", "a float given as kernel (documented for filter_seq) is refused with a TypeError in the kernel preparation: filter_seq fails at the first dimension, operate always; never a value"),
         (M, "TV.C15.zero_norm_fails", "outside the domain (a zero norm) the method fails with a division by zero for a Kernel object, never a wrong value"),
     ]
     partial = []
     open_statements = ["theorems are over a linearly ordered field: IEEE rounding of the float computation is outside them (sampled by the transfer check at 1e-9)",
-                       "the kernel functions using math.exp / math.pow (Gaussian, Exponential, Cubic, Spheric) and closed-form user functions are a function parameter: "
-                       "window_shape / window_of_nonneg_kernel apply to them under the stated hypotheses (even, non-negative at the sample points, positive at one), which are not proved for libm",
-                       "a weight list whose total sum is 0, weights that are NaN (a feature-name kernel over a feature with NaN) or negative are not modelled (numpy yields nan/inf); "
-                       "a float given as kernel to filter_seq (documented, but a TypeError in the code) is not modelled",
-                       "values read back as numpy scalars by a later call on the same track change ZeroDivisionError into nan outside the domain: sessions use one track per call"]
-    modelled = ("Filter.execute (kernel preparation for weight lists / Kernel objects / Dirac / feature names, odd-window test, window index i-j+D, "
-                "skipping out-of-track and NaN samples, division by the collected norm incl. the int/float/numpy cases of a zero norm, boundary copy), "
-                "Track.operate(Operator.FILTER, af_in, kernel, af_out) with createAnalyticalFeature (reserved names, empty track, new output feature), "
-                "Kernel.evaluate and Kernel.toSlidingWindow (zero sum included), the kernel functions of UniformKernel/TriangularKernel/EpanechnikovKernel, "
-                "user-defined kernels given by a table of values (the other kernel functions are a function parameter tabulated by Python), "
-                "filter_seq (int kernel, one-element list, dispatch on dim: default / module constant / list / str, x/y/z through the feature 'temp', "
-                "in-place renormalisation of the weight list at every dimension), Track.smooth, sessions of calls threading the module-level state")
-    trusted = ["kernel functions using math.exp / math.pow (Gaussian, Exponential, Cubic, Spheric) and closed-form user functions are a parameter of the model: "
+                       "math.exp is a parameter of the Gaussian / Exponential kernel functions: exp_kernel_windows / smooth_gaussian assume it returns positive numbers "
+                       "(true of libm on the sampled range, not proved); closed-form user functions are a function parameter tabulated by Python, "
+                       "window_shape / window_of_nonneg_kernel apply to them under the stated hypotheses (even, non-negative at the sample points, positive at one)",
+                       "a weight list whose total sum is 0, weights that are NaN (a feature-name kernel over a feature with NaN) or negative are not modelled (numpy yields nan/inf)",
+                       "values read back as numpy scalars by a later call on the same track change ZeroDivisionError into nan outside the domain: sessions use one track per call, "
+                       "and the same track is filtered twice only when both passes are in the domain",
+                       "a track shorter than the half window with copied boundaries raises IndexError (short_track_index_error, smooth_too_short_fails): outside the property's "
+                       "quantifier (signals at least as long as the window), not judged; the statement read literally would ask for the input unchanged (see JUDGE_SHORT_INDEXERROR)",
+                       "the list form of Track.operate with outputs that are inputs of later pairs, repeated names or coordinates written in place is modelled (operatePairs) and compared, not judged"]
+    modelled = ("Filter.execute (kernel preparation for weight lists / Kernel objects / Dirac / feature names / a number, odd-window test, window index i-j+D, "
+                "skipping out-of-track and NaN samples, division by the collected norm incl. the int/float/numpy cases of a zero norm, boundary copy incl. the IndexError "
+                "on a track shorter than the half window), "
+                "Track.operate(Operator.FILTER, arg1, kernel[, arg3]) with createAnalyticalFeature (reserved names, empty track, new output feature), output name omitted, "
+                "lists of input / output names (one call per pair with the same kernel object, lengths compared), "
+                "Kernel.evaluate and Kernel.toSlidingWindow (zero sum included), the kernel functions of Uniform/Triangular/Epanechnikov/Cubic/Spheric kernels (math.pow with "
+                "integer exponents as products) and of Gaussian/Exponential kernels (math.exp, math.sqrt(2*math.pi) as parameters: Float.exp / Float.sqrt in the driver), "
+                "user-defined kernels given by a table of values (closed-form user functions are a function parameter tabulated by Python), "
+                "filter_seq (int kernel, default kernel, one-element list, float kernel, dispatch on dim: default / module constant / list / str, x/y/z through the feature 'temp', "
+                "in-place renormalisation of the weight list at every dimension), the same track filtered several times with the same kernel object, Track.smooth (default width), "
+                "sessions of calls threading the module-level state")
+    trusted = ["math.exp / math.sqrt are Float.exp / Float.sqrt of the Lean runtime in the driver (both the C library's); closed-form user kernel functions are a parameter of the model: "
                "their values at the model's sample points are tabulated by the real Python function",
+               "math.pow(a, n) for n = 2, 3, 5, 7 is modelled as a product (exact over the rationals, compared at 1e-9 with floats)",
                "np.sum is modelled as a left-to-right sum; int(support) as floor"]
-    rule = ("signals random-integer / dyadic / float / constant / monotone, with isolated NaN, length window..window+12; kernels: odd weight "
-            "lists with positive weights (symmetric and asymmetric, integer/dyadic/decimal), integers (filter_seq), the built-in "
+    rule = ("signals random-integer / dyadic / float / constant / monotone, with isolated NaN, length window..window+12, and (about one case in seven, every API) shorter than the "
+            "window: 1..window-1, below and above the half window; kernels: odd weight "
+            "lists with positive weights (symmetric and asymmetric, integer/dyadic/decimal), integers (filter_seq, incl. the default kernel), the built-in "
             "non-negative kernels Uniform/Triangular/Epanechnikov/Gaussian/Exponential/Cubic/Spheric/Dirac with widths 1..5, boundary and "
             "non-integer widths, user-defined kernels (Kernel + setFunction) returning Python ints / floats / bools / numpy scalars from a table or a closed form "
-            "(0 at the support edge or not), filterBoundary set to True / False / never set; features via track.operate(FILTER) incl. output into an existing / the same / a new feature "
-            "and kernels given as feature names, x/y/z and features via filter_seq with dim omitted / a module constant / a list / a str, "
-            "Track.smooth, Kernel.toSlidingWindow; sessions of 2-4 calls (filter_seq, Track.smooth, filter_freq) in one process on different tracks, some with an all-NaN "
+            "(0 at the support edge or not), filterBoundary set to True / False / never set; features via track.operate(FILTER) incl. output into an existing / the same / a new feature / "
+            "output name omitted, lists of names (in place, fresh outputs; overlapping / repeated / mismatched lists for correspondence) "
+            "and kernels given as feature names, x/y/z and features via filter_seq with dim omitted / a module constant / a list / a str, once or twice on the same track with the same kernel object, "
+            "Track.smooth (width given or omitted), Kernel.toSlidingWindow; sessions of 2-4 calls (filter_seq, Track.smooth, filter_freq) in one process on different tracks, some with an all-NaN "
             "coordinate or no observation, the module constants and Kernel class attributes being read after every call. All signals over {0,1,NaN} up to length 6 (quick) / 7 (thorough) "
-            "for three kernels; all user tables of length <= 3 over five typed values for supports 1..3. Cases outside the "
+            "for three kernels; every kernel class x boundary flag x track lengths 1, 2, D-1, D, D+1, N-2..N+2; all user tables of length <= 3 over five typed values for supports 1..3. "
+            "Signals shorter than the window ('short') are judged like the others: renormalised mean over the in-track samples when boundaries are filtered, input unchanged when they are "
+            "copied; the IndexError of the boundary copy below the half window is not judged. Cases outside the "
             "property's domain are kept in correspondence-only streams: 'zeronorm' (a window without valid weight), "
-            "'short' (signals shorter than the window), 'badk' (even / empty windows, support < 1, zero-sum kernels, reserved or unknown names, empty tracks); "
+            "'badk' (even / empty windows, support < 1, zero-sum kernels, a float kernel, reserved or unknown names, empty tracks); "
             "'zerow' (weight lists with zero weights) is judged at the indices whose valid weights have a positive sum. non-trivial = window of "
             "at least 3 weights and a non-constant signal (or a sliding-window case)")
 
@@ -326,8 +342,10 @@ class P(Prop):
 
     def exhaustive_scopes(self, tier):
         m = 7 if tier == "thorough" else 6
-        return ["every signal over {0, 1, NaN} of length 3..%d inside the domain, for the weight list [1,2,5], UniformKernel(1) "
+        return ["every signal over {0, 1, NaN} of length 1..%d inside the domain (shorter than the window included), for the weight list [1,2,5], UniformKernel(1) "
                 "with and without boundary filtering" % m,
+                "every kernel class (15 kernels: 3 weight lists, Dirac, Uniform x2, Triangular, Epanechnikov, Gaussian x2, Exponential, Cubic, Spheric, a user table, a user closed form) "
+                "x filterBoundary True / False / never set x track lengths 1, 2, D-1, D, D+1, N-2, N-1, N, N+1, N+2 x three signals (ramp, spike, isolated NaN)",
                 "the sliding window of every user-defined kernel whose table has 1..3 values among int 0, int 1, float 0.5, float 0.0, numpy 0.25, "
                 "for the supports 1, 1.5, 2, 2.5, 3",
                 "the sliding window of every built-in kernel class at its boundary sizes (smallest support >= 1) and at the widths 1..5, 6, 7.5, 10"]
@@ -446,6 +464,8 @@ class P(Prop):
     def rand_seq(self, rng, session=False):
         """one call of filter_seq (None when the draw falls outside the property's domain and session is False)"""
         k = self.rand_kernel(rng, allow_int=True)
+        if k["t"] == "int" and k["n"] == 1 and rng.random() < 0.6:
+            k["omit"] = True          # filter_seq(track[, dim=...]): the default value of `kernel`
         w = shape_weights(k)
         n = max(1, len(w)) + rng.choice([0, 1, 2, rng.randrange(0, 10)])
         if len(w) >= 3 and rng.random() < 0.15:
@@ -582,11 +602,14 @@ class P(Prop):
         # ---- Track.smooth
         for _ in range(150 if quick else 2000):
             wd = rng.choice([1, 1, 2, 1.5, 3, 0.5, 0.75])
+            womit = wd == 1 and rng.random() < 0.5
             n = 2 * int(3 * wd) + 1 + rng.randrange(0, 8)
             if rng.random() < 0.15:
                 n = rng.randrange(1, 2 * int(3 * wd) + 1)      # shorter than the Gaussian window
             out.append({"kind": "smooth", "x": self.rand_signal(rng, n, nan=False, floats=True), "y": self.rand_signal(rng, n, nan=(rng.random() < 0.3), floats=True),
                         "z": self.rand_signal(rng, n, nan=False, floats=True), "w": wd, "sc": "f"})
+            if womit:
+                out[-1]["womit"] = True
         # ---- sessions: several calls in one process, module-level state read after every call
         for _ in range(350 if quick else 4000):
             steps = []
@@ -766,7 +789,7 @@ class P(Prop):
         n = rng.choice([0, 3, 4, 5, 7])
         sigs = {nm: self.rand_signal(rng, n, nan=False) for nm in ("x", "y", "z")}
         feats = {"a": self.rand_signal(rng, n, nan=False)} if n else {}
-        what = rng.choice(["even", "int", "support", "zerosum", "reserved", "unknown", "empty", "strdim", "newfeat"])
+        what = rng.choice(["even", "int", "support", "zerosum", "reserved", "unknown", "empty", "strdim", "newfeat", "float"])
         k = {"t": "list", "w": [1, 2, 1]}
         dims, how = ["x", "y"], "list"
         if what == "even":
@@ -792,6 +815,10 @@ class P(Prop):
             how, dims = "str", list(rng.choice(["a", "xa", "ab", "speed", "xyt", ""]))
         elif what == "newfeat":
             dims = rng.choice([["n"], ["x", "n"], ["n", "n"]])
+        elif what == "float":
+            # the documented "float number giving the half width of a rectangular window": a TypeError in the code
+            k = {"t": "num", "v": rng.choice([1.0, 2.0, 2.5]), "np": rng.random() < 0.3}
+            dims = rng.choice([["x", "y"], ["x"], [], ["q"], ["t"]])
         return {"kind": "badk", "x": sigs["x"], "y": sigs["y"], "z": sigs["z"], "feats": feats, "dims": dims, "k": k, "sc": "r", "how": how}
 
     def pick_scalar(self, rng, k):
@@ -818,6 +845,9 @@ class P(Prop):
             t["dim"] = case["how"]
         if kind == "seq":
             t["calls_on_the_track"] = 2 if case.get("twice") else 1
+            t["kernel_argument"] = "omitted" if k.get("omit") else "given"
+        if kind == "smooth":
+            t["width_argument"] = "omitted" if case.get("womit") else "given"
         if kind == "opl":
             t["form"] = case["form"]
         if kind == "op":
@@ -897,6 +927,8 @@ class P(Prop):
             return list(k["w"])
         if t == "int":
             return k["n"]
+        if t == "num":
+            return self.np.float64(k["v"]) if k.get("np") else float(k["v"])
         if t == "feat":
             return k["name"]
         if t == "dirac":
@@ -916,7 +948,7 @@ class P(Prop):
 
     def window_of(self, k):
         """the weights the implementation says it uses for a Kernel object (observed, not recomputed)"""
-        if k["t"] in ("list", "int", "feat"):
+        if k["t"] in ("list", "int", "feat", "num"):
             return None
         if k["t"] == "dirac":
             return [0.0, 1.0, 0.0]
@@ -956,13 +988,25 @@ class P(Prop):
             for nm, v in st.get("feats", {}).items():
                 t.createAnalyticalFeature(nm, [num(a) for a in v])
             if api == "smooth":
-                t.smooth(st["w"])
+                if st.get("womit"):
+                    t.smooth()            # the default value of `width`
+                else:
+                    t.smooth(st["w"])
                 r = t
             else:
                 if kern is None:
                     kern = self.mk_kernel(k)
                 how = st.get("how", "list")
-                if how == "default":
+                if k.get("omit"):
+                    if how == "default":
+                        r = self.F.filter_seq(t)
+                    elif how == "const":
+                        r = self.F.filter_seq(t, dim=getattr(self.F, st["const"]))
+                    elif how == "str":
+                        r = self.F.filter_seq(t, dim="".join(st["dims"]))
+                    else:
+                        r = self.F.filter_seq(t, dim=list(st["dims"]))
+                elif how == "default":
                     r = self.F.filter_seq(t, kern)
                 elif how == "const":
                     r = self.F.filter_seq(t, kern, getattr(self.F, st["const"]))
@@ -1086,6 +1130,8 @@ class P(Prop):
             return "list " + tok_list(self.tok(sc, w) for w in k["w"])
         if t == "int":
             return "int %d" % k["n"]
+        if t == "num":
+            return "num"
         if t == "feat":
             return "feat " + k["name"]
         if t == "dirac":
@@ -1106,7 +1152,7 @@ class P(Prop):
         return "fn %s %s %s" % (self.fbtok(k), self.tok(sc, o.support), tok_list("%s:%s" % (self.tok(sc, x), self.tok(sc, float(f(x)))) for x in pts))
 
     def needs_sw(self, k):
-        return k["t"] not in ("list", "int", "dirac", "feat")
+        return k["t"] not in ("list", "int", "dirac", "feat", "num")
 
     def track_tok(self, sc, st):
         feats = st.get("feats", {})
@@ -1188,7 +1234,7 @@ class P(Prop):
         return [self.val(sc, t) for t in untok(tok, sep)]
 
     def decode_sw(self, sc, k, reply):
-        if k["t"] in ("list", "int", "feat"):
+        if k["t"] in ("list", "int", "feat", "num"):
             return None
         if k["t"] == "dirac":
             return [0.0, 1.0, 0.0]
@@ -1286,7 +1332,7 @@ class P(Prop):
     ERR_MAP = {"err:even-kernel": ("err:NameError", "err:KernelError"), "err:zerodiv": ("err:zerodiv",),
                "err:index": ("err:index",), "err:support": ("err:NameError", "err:KernelError"),
                "err:feature": ("err:AnalyticalFeatureError",), "err:empty-track": ("err:AnalyticalFeatureError",),
-               "err:operands": ("err:NameError", "err:OperatorError")}
+               "err:operands": ("err:NameError", "err:OperatorError"), "err:kernel-type": ("err:type", "err:TypeError")}
 
     def compare_one(self, impl_out, model_out):
         if "err" in impl_out or "err" in model_out:
